@@ -67,6 +67,14 @@ def cases(tier):
             dens = [p for i, p in enumerate(allp) if ((mask * 2654435761 + k) >> i) & 1]
             m3 = dict(m2, fs=True, dens=dens, embed=list(els))
             out.append(dict(kind='excel_eam_fs', m=m3, route=('cls', 'cfg', 'potable')[(k + 2) % 3]))
+    for m in EK.big_models(False, tier):
+        up = EK.unordered_pairs(m['embed'])
+        m2 = dict(m, dip=[list(p) for p in EK.orient(up[::2], 1)], quad=[list(p) for p in EK.orient(up[1::3], 2)])
+        for route in ('cls', 'cfg', 'potable'):
+            out.append(dict(kind='adp', m=m2, route=route))
+        out.append(dict(kind='excel_eam', m=m, route='cfg'))
+    for m in EK.big_models(True, tier)[::3]:
+        out.append(dict(kind='excel_eam_fs', m=m, route='potable'))
     # ---- funcfl
     gl = [(2, 2), (3, 5), (5, 3), (6, 6), (11, 10), (10, 11), (101, 50), (16, 1001)]
     steps = [(0.5, 0.1), (0.01, 0.05), (1.0, 0.3), (0.1, 0.072)]
